@@ -16,7 +16,7 @@ def main():
     t0 = time.time()
     try:
         ad = importlib.import_module(f"harness.envs.{mod}").Adapter()
-        cfg = [c for c in ad.configs(tier) if c["id"] == cfg_id][0]
+        cfg = [c for c in ad.all_configs(tier) if c["id"] == cfg_id][0]
         from harness.inject import Unavailable
         from harness.record import Recorder
 
